@@ -50,7 +50,7 @@ func TestVerifC13(t *testing.T) {
 				noted = fmt.Sprintf("%d/%d", n1, n2)
 			}
 			out := fmt.Sprintf("log=%s vals=%s map=%s values=%s notified=%s last=%s",
-				ses.Rec.Take(), vals, mp, VerifValIDs(sub.Values()), noted, last)
+				ses.Rec.Take(), vals, mp, VerifValIDs(sub.Values()), noted, last) + ses.LateObs()
 			n1, n2, last = 0, 0, "none"
 			return out
 		}
@@ -61,8 +61,10 @@ func TestVerifC13(t *testing.T) {
 			return observe()
 		}
 		return step, func() {
-			ses.Detach()
-			sub.Close()
+			ses.Close()
+			if !ses.Dead {
+				sub.Close()
+			}
 		}
 	})
 }
